@@ -12,6 +12,7 @@ CONSTANTS
   ReqMethods = {"GET", "POST", "OPTIONS"}
   ReqHosts = {""}
   ReqPaths = {"/a", "/c"}
+  ReqOrigins = {""}
   GenMinCalls = 0
   Dev = {"MethodsWildcardStar"}
 SPECIFICATION Spec
